@@ -6,7 +6,8 @@ C15 — executable checkers for matchings (core Lean only; linked into the drive
   non-loop edge of `g` (direction ignored).  Soundness: `Proofs/C15Matching.lean`.
 * `maxMatchingSize g`: the *definitional* maximum — exhaustive search over all sub-lists of the edge
   list that form a matching (an edge is taken only if it is not a loop and both endpoints are still
-  free).  Exponential; used on graphs with ≤ 10 nodes only.  `Proofs/C15Matching.lean` proves that
+  free).  Exponential; used on graphs with ≤ 10 nodes and on the sparse large matching families
+  (≤ 18 nodes, about 1.1–1.5 edges per node; 1–2 ms per case).  `Proofs/C15Matching.lean` proves that
   every matching has at most that many pairs and that some matching attains it.
 -/
 namespace PetgraphModel.C15
